@@ -71,6 +71,12 @@ theorem signature_readers : readers "Certificate.Signature" = ["e_mp_ecdsa_signa
     algorithm identifier with cryptobyte, one re-parses with encoding/asn1) -/
 theorem raw_readers : readers "Certificate.Raw" = ["e_cert_ext_invalid_der", "e_cert_sig_alg_not_match_tbs_sig_alg"] := by decide +kernel
 
+/-- the framework itself (the execute loops, the wrappers, the output formatting) reads of the linted object exactly
+    the dating fields and the policy identifiers of the scope gate — nothing derived from the signature (no
+    fingerprint stamped onto results, no raw bytes) -/
+theorem framework_reads :
+    frameworkObjReads = ["Certificate.NotBefore", "Certificate.PolicyIdentifiers", "Response.NextUpdate", "RevocationList.ThisUpdate"] := by decide
+
 /-- the lints that read signature bytes or whole-object bytes were reviewed **in exactly this text**: the hash of
     every lint-package function they reach is pinned, so an edit to one of them (say, a byte search over `c.Raw`
     that is no longer anchored to the to-be-signed part) re-opens the review instead of passing silently.
